@@ -4106,7 +4106,7 @@ void indent_text()
                   LOG_FMT(LINDPC, "%s(%d): Text() is '%s', (frm.at(frm_size - 1).pc)->GetType() is %s\n",
                           __func__, __LINE__, (frm.at(frm_size - 1).GetOpenChunk())->Text(), get_token_name((frm.at(frm_size - 1).GetOpenChunk())->GetType()));
                   // get the token before
-                  const size_t temp_ttidx = frm_size - 2;
+                  const size_t temp_ttidx = (frm_size >= 2) ? frm_size - 2 : 0;   // only the file level entry: nothing before
 
                   if (temp_ttidx == 0)
                   {
